@@ -59,6 +59,8 @@ TQuiescent == Step("quiescent") /\ UNCHANGED <<avars, scen, poisoned, garbage>> 
         /\ viol' = viol \cup {"C06/parked-with-message-available", "C05/message-never-delivered"}
    ELSE NoFlag
 
+TExpectWire == Step("expect_wire") /\ UNCHANGED <<avars, scen, poisoned, garbage>> /\
+   IF E.ok THEN NoFlag ELSE Flag("C03/other-connection-disturbed")
 TPanic == Step("panic") /\ UNCHANGED <<avars, scen, poisoned, garbage>> /\ Flag("C03/panic")
 THarness == Step("harness_error") /\ UNCHANGED <<avars, scen, poisoned, garbage>> /\ Flag("harness/script-error")
 
@@ -66,7 +68,7 @@ Ignored == {"peer_part", "attach_call", "attach_pending", "wire", "released", "r
             "send_ret", "send_pending", "send_dropped", "sub_call", "sub_ret", "sub_pending", "sub_dropped", "pipe", "end"}
 TIgnore == l <= NRec /\ E.ev \in Ignored /\ l' = l + 1 /\ UNCHANGED <<avars, scen, poisoned, garbage>> /\ NoFlag
 
-TNext == TReset \/ TAttachRet \/ TWrote \/ TBytes \/ TCut \/ TRecvRet \/ TQuiescent \/ TPanic \/ THarness \/ TIgnore
+TNext == TExpectWire \/ TReset \/ TAttachRet \/ TWrote \/ TBytes \/ TCut \/ TRecvRet \/ TQuiescent \/ TPanic \/ THarness \/ TIgnore
 TSpec == TInit /\ [][TNext]_tvars
 Accepted == Consumed
 =============================================================================
